@@ -36,7 +36,11 @@ def split_label(label):
 
 
 def piece_value(piece, frame, cat_factors, extra=None):
-    """value of one label piece; cat_factors: {printed factor expr -> column name in frame}"""
+    """value of one label piece; cat_factors: {printed factor expr -> column name in frame};
+    extra: {piece label -> vector} for pieces whose value is supplied by the caller (e.g. contrast-coded columns)"""
+    if extra and piece in extra and not callable(extra[piece]):
+        m0 = PIECE_CAT.match(piece)
+        return np.asarray(extra[piece], dtype=float), ((m0.group("f") if m0 else piece), None, True)
     m = PIECE_CAT.match(piece)
     if m and m.group("f") in cat_factors:
         col = frame[cat_factors[m.group("f")]]
